@@ -273,6 +273,13 @@ def _run(V, work, tier):
         usesrc = "(in-package 'user)\n(use-package 'lib)\n(defun caller (q) (list q %s))\n(probe 'r (caller 1) %s)\n" % (use, use)
         sessions.append(("qualified-template-%s-2" % tag, [libsrc, usesrc], False, None))
         sessions.append(("qualified-template-%s-1" % tag, [libsrc + usesrc], False, None))
+    # histories of definitions across and inside files, local definers at top level, data templates in binding values
+    sessions.append(("redef-across-files", ["(defun helper () 1)\n(defun call-a () (helper))\n", "(defun helper () 2)\n", "(probe 'r (call-a) (helper))\n"], False, None))
+    sessions.append(("redef-between-calls", ["(defun f () 1)\n(set 'a (f))\n(defun f () 2)\n(probe 'r a (f))\n"], False, None))
+    sessions.append(("defun-in-toplevel-let", ["(let ((counter 0)) (defun next-id () (set! counter (+ counter 1)) counter))\n(next-id)\n(probe 'r (next-id))\n"], False, None))
+    sessions.append(("quote-form-package-two-files", ["(in-package (quote lib))\n(defun helper () 5)\n", "(in-package (quote lib))\n(probe 'r (helper))\n"], False, None))
+    sessions.append(("qq-in-binding-value", ["(probe 'r (let ((a 1) (g (let ((tag 2)) (quasiquote (tag (unquote tag)))))) (list a g)))\n"], False, None))
+    sessions.append(("qq-in-flet-function", ["(probe 'r (flet ((f (tag) (quasiquote (tag (unquote tag))))) (f 2)))\n"], False, None))
     # the SAME programs cut into two files at a top-level boundary (one minify session over both files): what one file
     # defines and the other mentions - through a call, a macro body, a local macro, a template, a set - must keep meeting
     base = list(sessions)
@@ -328,6 +335,8 @@ def _run(V, work, tier):
                 key = "export-renamed"
             if name.startswith("letself"):
                 key = "let-closure-self-reference"
+            if name.startswith("qq-in-"):
+                key = "data-template-in-nested-binder"
             V.add(key, "minified session behaves differently from the original (%s)" % oname,
                   {"files": files, "feats": feats, "kind": name.rstrip("0123456789"), "minified": r["outputs"], "map": r["map"]["m2o"], "original_result": a[-1][0][:300], "minified_result": b[-1][0][:300]})
         cases.append({"id": cid, "orig": [to_tree(x) for t in r["trees_in"] for x in t["trees"]], "min": [to_tree(x) for t in r["trees_out"] for x in t["trees"]],
